@@ -81,7 +81,7 @@ def run(repo, chk):
     chk.note_undecided('value 1 for one-hot rows', 'numerical round-off of exp / logsumexp')
     R = Rules(repo, chk)
     refcheck.run_all(R, repo, chk, 'RECUR', 'conf_ref.py', WHAT)
-    R.run('PROV', prov, repo, chk)
+    R.run('PROV', prov, repo, Soft(chk))
     R.run('FACTS', facts, repo, Soft(chk))
     R.run('MONO', mono, repo, chk)
     chk.expect('PROV', 5)
@@ -131,8 +131,7 @@ def prov(repo, chk):
     comp = [n for n in ast.walk(post.node) if isinstance(n, ast.ListComp)]
     ok = bool(comp) and src(comp[0].generators[0].iter) == src(lse[0].args[0]) and isinstance(comp[0].elt, ast.BinOp) and isinstance(comp[0].elt.op, ast.Sub)
     if ok:
-        d = post.flow.unique_def(lse[0].args[0].id, lse[0]) if isinstance(lse[0].args[0], ast.Name) else None
-        ok = d is not None and 'total_scores' in src(d.value)
+        ok = 'total_scores' in src(post.flow.resolve(lse[0].args[0], lse[0]))
     chk.ob('PROV', post, lse[0], 'posteriors = totals minus the logsumexp of the same totals (they sum to 1)', ok, construct='posterior normaliser')
 
 
